@@ -23,8 +23,8 @@ SPEC = {
     "C08": (["MESSAGE", "BROADCAST_ACK"] + ERR, [1], True, ["C08"]),
     "C09": (["AUTH_ACK", "IDENTIFY_ACK", "CONNECT_ACK"] + ERR, [0], True, []),
     "C12": ([], [], True, ["C12"]),
-    "C14": (["JOIN_ACK", "SET_CHAN_ACL_ACK", "SET_CHAN_CONFIG_ACK", "CHAN_CONFIG", "BROADCAST_ACK", "CONNECT_ACK"] + ERR, [], True, []),
-    "C17": (["MOD_DIRECT", "MOD_DIRECT_ACK"] + ERR, [3], True, []),
+    "C14": (["JOIN_ACK", "SET_CHAN_ACL_ACK", "SET_CHAN_CONFIG_ACK", "CHAN_CONFIG", "BROADCAST_ACK", "CONNECT_ACK"] + ERR, [], True, ["C14"]),
+    "C17": (["MOD_DIRECT", "MOD_DIRECT_ACK"] + ERR, [3], True, ["C17"]),
     "C18": (["EVENT", "JOIN_ACK", "LEAVE_ACK"] + ERR, [2], True, ["C18"]),
 }
 
